@@ -1,8 +1,12 @@
 open BinInt
 open BinNat
 open BinNums
+open Bytes0
 open Consts
 open Datatypes
+open List0
+open Nat0
+open PeanoNat
 
 val gd_int_min : coq_Z -> coq_Z
 
@@ -88,3 +92,51 @@ val gd_parse_version :
   coq_N list -> coq_N list -> coq_N list -> ((coq_Z * coq_Z) * coq_Z) option
 
 val gd_target_size : jnum -> coq_Z option
+
+type gd_chunk_time =
+| GdFast
+| GdMid
+| GdSlow of coq_Z
+
+type gd_ack = { ga_len : coq_Z; ga_time : gd_chunk_time }
+
+val gd_min64 : coq_Z -> coq_Z -> coq_Z
+
+val gd_is_fast : gd_chunk_time -> bool
+
+val gd_bufsize_step : coq_Z -> coq_Z -> gd_ack -> coq_Z
+
+val gd_bufsize_run : coq_Z -> coq_Z -> gd_ack list -> coq_Z list
+
+val gd_capacities : coq_Z -> gd_ack list -> coq_Z list
+
+val gd_bufsize_step_v1 : coq_Z -> coq_Z -> gd_ack -> coq_Z
+
+val gd_bufsize_run_v1 : coq_Z -> coq_Z -> gd_ack list -> coq_Z list
+
+val gd_bufsize_step_ms :
+  coq_Z -> coq_Z -> coq_Z -> coq_Z -> coq_Z -> coq_Z option
+
+val gd_bufsize_run_ms :
+  coq_Z -> coq_Z -> coq_Z -> (coq_Z * coq_Z) list -> coq_Z list option
+
+val gd_capacities_ms : coq_Z -> (coq_Z * coq_Z) list -> coq_Z list option
+
+type gd_aw_way =
+| GdAwToFile
+| GdAwHeader
+| GdAwNilDeref
+
+val gd_aw_dispatch : bool -> coq_Z -> bool -> gd_aw_way
+
+val gd_aw_after_header : bool -> coq_Z -> coq_Z * bool
+
+val gd_aw_ways :
+  bool -> coq_Z -> bool -> ((bool * coq_Z) * nat) list -> gd_aw_way list
+
+type gd_split =
+| GdSplitReject
+| GdSplitPanic
+| GdSplitOk of coq_N list * coq_N list
+
+val gd_line_split : coq_Z -> coq_N list -> gd_split
